@@ -474,6 +474,36 @@ def check_declared(rep: Report) -> None:
     rep.analysed["scales"] = [s.a.name for s in scales]
 
 
+def check_in_unit(rep: Report, prog: Program, rid: str) -> None:
+    """The public entry Quantity.in_unit is conversions.convert(self, unit) and nothing else: every other
+    rule about conversion (affine map, prefix step last, offsets scaled) is proved about convert, so a
+    shortcut here bypasses all of them.  Allowed besides the call: returning self when the unit already
+    is the requested one."""
+    fi = prog.func("Quantity.in_unit")
+    ps = fi.params()
+    me, unit = ps[0], ps[1]
+    defs = {n.targets[0].id: n.value for n in ast.walk(fi.node) if isinstance(n, ast.Assign) and len(n.targets) == 1 and isinstance(n.targets[0], ast.Name)}
+    rets = [r for r in ast.walk(fi.node) if isinstance(r, ast.Return) and r.value is not None]
+    if not rets:
+        raise AnalysisError("Quantity.in_unit has no return")
+    for i, r in enumerate(rets):
+        v = r.value
+        if isinstance(v, ast.Name) and v.id in defs:
+            v = defs[v.id]
+        okc = isinstance(v, ast.Call) and ast.unparse(v.func).split(".")[-1] == "convert" and len(v.args) == 2 and not v.keywords \
+            and isinstance(v.args[0], ast.Name) and v.args[0].id == me and isinstance(v.args[1], ast.Name) and v.args[1].id == unit \
+            and unit not in defs and me not in defs
+        same = False
+        if isinstance(v, ast.Name) and v.id == me:
+            p = getattr(r, "_parent", None)
+            if isinstance(p, ast.If):
+                t = ast.unparse(p.test).replace(" ", "")
+                same = t in (f"{me}.unitis{unit}", f"{unit}is{me}.unit", f"{me}.unit=={unit}", f"{unit}=={me}.unit") and any(r is x for x in p.body)
+        rep.check(rid, f"Quantity.in_unit:return#{i + 1}", okc or same,
+                  f"Quantity.in_unit returns `{ast.unparse(r.value)[:60]}`: a conversion that does not go through conversions.convert(self, {unit}) "
+                  "unchanged escapes every rule proved about convert (offsets of temperature scales, the prefix step, linearity)", fi.where(r))
+
+
 def run(rep: Report) -> None:
     prog = Program()
     resolver = Resolver(prog)
@@ -483,6 +513,7 @@ def run(rep: Report) -> None:
     rep.rule("R05.2", "convert applies an affine map whose coefficients do not depend on the magnitude: updates are "
              "magnitude*c / magnitude+c, no branch tests the magnitude, the plan depends on the units only", floor=4)
     rep.rule("R05.3", "every return of convert is Quantity(<magnitude>, <the requested unit, unmodified>)", floor=1)
+    rep.rule("R05.7", "Quantity.in_unit is conversions.convert(self, unit), unchanged, on every path", floor=1)
     rep.rule("R05.4", "path search: both tables read in one direction, recursion from the intermediate to end, hops ordered "
              "start -> end, direct hit and base case return single hops", floor=5)
     rep.rule("R05.6", "every hop returned by the path search after the dimension reduction is lifted by ** exponent, including "
@@ -491,6 +522,7 @@ def run(rep: Report) -> None:
     check_equate(rep, prog, resolver)
     check_translate(rep, prog, resolver)
     check_convert(rep, prog)
+    check_in_unit(rep, prog, "R05.7")
     check_path_search(rep, prog)
     check_lifting(rep, prog)
     check_declared(rep)
